@@ -15,11 +15,13 @@ response copying), `net/http` server and `Transport` (framing, `Accept-Encoding:
 the client sends none, `Pragma: no-cache` ⇒ `Cache-Control: no-cache`, only the first `User-Agent`
 forwarded, `Content-Type` dropped from a 304, re-escaping of `| ^ \` { } " < >` in paths), gin.
 
-Known findings on the real stack (modelled faithfully, not theorems): an upstream dying in the
-middle of a **chunked** response body yields a well-terminated, truncated 200 at the client
-(`truncationDetectable`), and an upstream 404 with a known-empty body has its `Content-Type`
-rewritten to `text/plain` (`ginNoRouteRewrites`).  Also: the timeout exemption compares the
-`Upgrade` value with `"websocket"` exactly, so `Upgrade: WebSocket` is **not** exempt.
+Two defects found with this check were repaired in /repo and are modelled in their repaired
+form (regressions in `corpus/http/findings.ops`): 6abbcc4 - an upstream dying in the middle of a
+response body now aborts the client connection instead of yielding a well-terminated, truncated
+200 (`onUpstreamDeathMidBody`); 694d302 - an upstream 404 without a body is no longer replaced
+by gin's `NoRoute` default (`visibleResp` has no exception for 404).  Still as in the code: the
+timeout exemption compares the `Upgrade` value with `"websocket"` exactly, so `Upgrade:
+WebSocket` is **not** exempt.
 -/
 namespace Piko
 open Piko.Http
@@ -167,6 +169,11 @@ theorem C08_e2e_hops (n : Nat) (ep : String) (r : Request) :
   | succ n ih =>
     obtain ⟨h1, h2, h3, h4, h5⟩ := ih (hop ep r)
     exact ⟨h1, h2, h3, h4, h5⟩
+
+/-- An upstream that dies inside the response body never reaches the client as a complete
+response, whatever the framing (Content-Length, chunked, close-delimited): the abort of the
+reverse proxy is propagated to net/http (`panicRoute` re-panics `http.ErrAbortHandler`). -/
+theorem C08_truncation_aborts (f : Framing) : onUpstreamDeathMidBody f = .aborted := rfl
 
 /-! ## Non-vacuity -/
 
